@@ -156,3 +156,84 @@ def run_eval(facts, tree, extra=None, budget=200000, with_query=False, describe=
         return dom, it, outs, dref
     outs = it.run(body, [Sym("q"), node(0), Sym("bias")], {})
     return dom, it, outs
+
+
+# ---- the fold of an OPERATION node ----------------------------------------------------------------------------------------
+def _vname(v):
+    """'child1' / 'r0' / 'cast0' of a Numeric value built by these summaries, else repr."""
+    if isinstance(v, Agg) and v.path == "numeric::Numeric":
+        x = v.field(0)
+        x = x.field(0) if isinstance(x, Agg) and x.path == "rational::Rational" else x
+        if isinstance(x, Sym) and x.name.endswith(".value"):
+            return x.name[:-6]
+        return repr(x)
+    return repr(v)
+
+
+def is_operator_fn(facts, nm):
+    b = facts.fn(nm)
+    if b is None or b.arg_count != 3 or b.promoted >= 0 or "{closure" in nm:
+        return False
+    return b.local_ty(2) == "numeric::Numeric" and b.local_ty(3) == "numeric::Numeric" and "numeric::Numeric" in b.local_ty(0) \
+        and "Result" in b.local_ty(0)
+
+
+def fold_summary(facts, kinds, budget=150000):
+    """Summary of eval::eval on OPERATION [x1 k1 x3 k2 x5 ...] (kinds = operator token kinds; the operand after OP_CAST is
+    a unit expression).  Sub-evaluations, the unit parser, the operator functions and Compound::factor are effects:
+      ('eval-child', id) ('child-failed', id) ('unit', id) ('unit-failed', id)
+      ('operator', fn, lhs name, rhs name, result name) ('operator-failed', fn)
+      ('factor', verdict, value name)        verdict in commensurable / incommensurable / error
+    -> (dom, [(outcome, unpacked result, events)])"""
+    tree = {0: {"kind": "OPERATION", "children": []}}
+    nid = 1
+    tree[nid] = {"kind": "NUMBER", "children": []}
+    tree[0]["children"].append(nid)
+    for k in kinds:
+        nid += 1
+        tree[nid] = {"kind": k, "children": [], "token": False}
+        tree[0]["children"].append(nid)
+        nid += 1
+        tree[nid] = {"kind": "UNIT" if k == "OP_CAST" else "NUMBER", "children": []}
+        tree[0]["children"].append(nid)
+
+    def extra(dom, it, nm, args, vals, store):
+        if is_operator_fn(facts, nm) and len(vals) == 3:
+            n = store.get(("opn",), 0)
+            s2 = dict(store)
+            s2[("opn",)] = n + 1
+            res = "r%d" % n
+            st = dom.with_log(s2, ("operator", nm, _vname(vals[1]), _vname(vals[2]), res))
+            return [(ok(numeric(res)), st), (err(Sym("operator_error")), dom.with_log(s2, ("operator-failed", nm)))]
+        if nm == "eval::unit" and len(vals) >= 2:
+            # the unit expression is handed over as a node or as the iterator over a node's children
+            j = node_id(vals[1])
+            if j is None and isinstance(vals[1], Agg) and vals[1].kind == "children":
+                j = vals[1].field(0).v
+            u = Agg("adt", "compound::Compound", 0, "Compound", (Sym("target%s" % j),))
+            return [(ok(u), dom.with_log(store, ("unit", j))), (err(Sym("unit_error")), dom.with_log(store, ("unit-failed", j)))]
+        if nm == "compound::Compound::factor" and len(vals) == 3:
+            a, b = vals[0], vals[1]
+            old = vals[2]
+            oldv = old.field(0) if isinstance(old, Agg) else old
+            ua = a.field(0) if isinstance(a, Agg) and a.path == "compound::Compound" else a
+            ub = b.field(0) if isinstance(b, Agg) and b.path == "compound::Compound" else b
+            conv = Agg("adt", "rational::Rational", 0, "Rational", (T("conv", oldv, ua, ub),))
+            st_ok = dom.with_log(it.write_ref(store, args[2], conv), ("factor", "commensurable", repr(oldv)))
+            return [(ok(Const(True)), st_ok), (ok(Const(False)), dom.with_log(store, ("factor", "incommensurable", repr(oldv)))),
+                    (err(Agg("adt", "compound::CompoundError", 0, "CompoundError", ())),
+                     dom.with_log(it.write_ref(store, args[2], TOP), ("factor", "error", repr(oldv))))]
+        if nm.startswith("compound::Compound::") or nm.startswith("<compound::Compound as "):
+            # what a unit is like (is_acceleration, is_empty, clone ...) is not this summary's business
+            if nm.endswith("::clone"):
+                return [(vals[0], store)]
+            return [(T("call:" + nm, *vals), store)]
+        return None
+
+    dom, it, outs = run_eval(facts, tree, extra=extra, budget=budget)
+    from .evalops import unpack
+    res = []
+    keep = ("eval-child", "child-failed", "unit", "unit-failed", "operator", "operator-failed", "factor")
+    for o in outs:
+        res.append((o, unpack(o.value) if o.kind == "ret" else None, [e for e in dom.log(o.store) if e[0] in keep]))
+    return dom, res
